@@ -78,6 +78,7 @@ class Ops(SeriesOps):
         return g
 
     def frame_getitem(self, f: Frame, key: Any, node) -> Any:
+        key = self._callable_key(f, key, node)
         if isinstance(key, str):
             return self.M.ser_of(f, key)
         if isinstance(key, list) and all(isinstance(k, str) for k in key):
@@ -95,7 +96,18 @@ class Ops(SeriesOps):
     def row_obj(self, f: Frame, sel: T.Term) -> Obj:
         return Obj("row", attrs={"__row_of__": sel, "__frame__": f.derive()})
 
+    def _callable_key(self, f: Any, key: Any, node) -> Any:
+        """df.loc[callable] / df[callable] / s.loc[callable]: pandas calls it with the object being indexed and uses what it returns"""
+        call = lambda k: self.M.invoke(k, [f], {}, node, "indexer-callable")
+        if isinstance(key, FuncRef) or (isinstance(key, Obj) and key.cls is not None and self.I.find_method(key.cls, "__call__") is not None):
+            return call(key)
+        if isinstance(key, PyTuple) and key.items and (isinstance(key.items[0], FuncRef) or (isinstance(key.items[0], Obj) and key.items[0].cls is not None and self.I.find_method(key.items[0].cls, "__call__") is not None)):
+            return PyTuple([call(key.items[0])] + list(key.items[1:]))
+        return key
+
     def indexer_get(self, kind: str, f: Any, key: Any, node) -> Any:
+        if kind in ("loc", "iloc"):
+            key = self._callable_key(f, key, node)
         if isinstance(f, Ser):
             if kind == "iloc":
                 if isinstance(key, int):
